@@ -21,6 +21,10 @@ type gateSvc struct {
 	hold    atomic.Bool
 	gate    chan struct{}
 	waiting atomic.Int32
+	// conditional (poll) requests waiting at the gate at the same time: one poll asks for one
+	// name at a time, so more than one means two rounds of requests are running
+	condWaiting    atomic.Int32
+	maxCondWaiting atomic.Int32
 }
 
 func (g *gateSvc) value(name string) *api.SecretValue {
@@ -57,6 +61,14 @@ func (g *gateSvc) Get(ctx context.Context, name string) (*api.SecretValue, error
 }
 
 func (g *gateSvc) GetIfChanged(ctx context.Context, name string, old api.SecretVersion) (*api.SecretValue, error) {
+	n := g.condWaiting.Add(1)
+	for {
+		m := g.maxCondWaiting.Load()
+		if n <= m || g.maxCondWaiting.CompareAndSwap(m, n) {
+			break
+		}
+	}
+	defer g.condWaiting.Add(-1)
 	if err := g.wait(ctx); err != nil {
 		return nil, err
 	}
@@ -86,7 +98,8 @@ func traceConcStore(t *testing.T, o opts) {
 			continue
 		}
 		r := rng(o.seed, h)
-		g := &gateSvc{cur: map[string]int{"a": 1, "b": 1, "c": 1, "d": 1}, gate: make(chan struct{})}
+		// "poll" is an ordinary secret name too (it must not collide with anything internal)
+		g := &gateSvc{cur: map[string]int{"a": 1, "b": 1, "c": 1, "d": 1, "poll": 1}, gate: make(chan struct{})}
 		var clock atomic.Int64
 		clock.Store(1_700_000_000)
 		tick := newFakeTicker()
@@ -116,7 +129,7 @@ func traceConcStore(t *testing.T, o opts) {
 		}
 		var hmu sync.RWMutex
 		nreaders := 3 + r.Intn(3)
-		var reads, bad, wrong, nonmono, panics atomic.Int64
+		var reads, bad, wrong, nonmono, panics, lookupFail atomic.Int64
 		stop := make(chan struct{})
 		var wg sync.WaitGroup
 		counters := make([]atomic.Int64, nreaders)
@@ -126,7 +139,7 @@ func traceConcStore(t *testing.T, o opts) {
 				defer wg.Done()
 				last := map[string]int{}
 				lastU := 0
-				names := []string{"a", "b", "c", "d"}
+				names := []string{"a", "b", "c", "d", "poll"}
 				for k := 0; ; k++ {
 					select {
 					case <-stop:
@@ -195,23 +208,50 @@ func traceConcStore(t *testing.T, o opts) {
 			// hold the service, start a poll (explicit or background) and a lookup
 			g.hold.Store(true)
 			done := make(chan struct{})
+			// overlapping refreshes - two explicit ones and a background tick - must be coalesced
+			// into one round of requests
+			overlap := r.Intn(2) == 0
 			go func() {
 				defer close(done)
-				if r.Intn(2) == 0 {
+				var pw sync.WaitGroup
+				if overlap {
+					for i := 0; i < 2; i++ {
+						pw.Add(1)
+						go func() { defer pw.Done(); st.Refresh(context.Background()) }()
+					}
+					pw.Add(1)
+					go func() { defer pw.Done(); tick.Poll() }()
+				} else if r.Intn(2) == 0 {
 					st.Refresh(context.Background())
 				} else {
 					tick.Poll()
 				}
+				pw.Wait()
 			}()
 			lookDone := make(chan struct{})
 			go func() {
 				defer close(lookDone)
-				ctx, cancel := context.WithTimeout(context.Background(), 5*time.Second)
-				defer cancel()
-				if hd, err := st.LookupSecret(ctx, "d"); err == nil {
-					hmu.Lock()
-					handles["d"] = hd
-					hmu.Unlock()
+				for _, ln := range []string{"d", "poll"} {
+					func() {
+						defer func() {
+							if p := recover(); p != nil {
+								panics.Add(1)
+							}
+						}()
+						ctx, cancel := context.WithTimeout(context.Background(), 30*time.Second)
+						defer cancel()
+						hd, err := st.LookupSecret(ctx, ln)
+						if err == nil && hd != nil {
+							if v := string(hd.Get()); !strings.HasPrefix(v, ln+"#") {
+								wrong.Add(1)
+							}
+							hmu.Lock()
+							handles[ln] = hd
+							hmu.Unlock()
+						} else {
+							lookupFail.Add(1)
+						}
+					}()
 				}
 			}()
 			deadline := time.Now().Add(10 * time.Second)
@@ -264,7 +304,7 @@ func traceConcStore(t *testing.T, o opts) {
 		afterClose := reads.Load() - afterBefore
 		close(stop)
 		wg.Wait()
-		emit("concstore\treaders=%d\treads=%d\tbad=%d\twrongname=%d\tnonmono=%d\twindows=%d\tstalled=%d\tpanics=%d\tafterclose=%d\tdropped_pinned=%d\tupd_bad=%d\tupd_nonmono=%d",
-			nreaders, reads.Load(), bad.Load(), wrong.Load(), nonmono.Load(), windows, stalled, panics.Load(), afterClose, dropped, ubad.Load(), unonmono.Load())
+		emit("concstore\treaders=%d\treads=%d\tbad=%d\twrongname=%d\tnonmono=%d\twindows=%d\tstalled=%d\tpanics=%d\tafterclose=%d\tdropped_pinned=%d\tupd_bad=%d\tupd_nonmono=%d\tlookup_fail=%d\tmax_cond_waiting=%d",
+			nreaders, reads.Load(), bad.Load(), wrong.Load(), nonmono.Load(), windows, stalled, panics.Load(), afterClose, dropped, ubad.Load(), unonmono.Load(), lookupFail.Load(), g.maxCondWaiting.Load())
 	}
 }
